@@ -152,6 +152,8 @@ func c14Prepare(e *runner.Env, tier string) ([]runner.Job, error) {
 			return nil, err
 		}
 	}
+	// one Decoder / Encoder used for several types in sequence (incl. refused destinations): see props/c11handles.go
+	jobs = append(jobs, runner.Job{Harness: "c14.handles", Mode: "shim", Shards: 16, MaxRSS: 8192})
 	return jobs, nil
 }
 
@@ -160,7 +162,7 @@ func init() {
 		Prop: "C14",
 		Rule: "a family of generated programs (quick: 50, 500, 5000 types, a 500-type program in the race-build source variant, and two 800-type programs that encode every value before the first decode of the process / decode every value before the first encode; thorough adds 200, 2000, 5000, 10000, 20000 with other name prefixes), each defining N named struct types with distinct members plus named slice/map types and unnamed slice, pointer-map and array composites, linked densely by the linker. In every program, for every compiled-in value by value and by pointer (ascending, cold then warm; descending after a cache reset), for 300+300 run-time types created before and after first use, and for run-time types whose heap descriptors are steered (by growing the heap) to alias the address window modulo 2^32: the binding hooks must see every value handled by the program of its own type and no decoder slot claimed by two types, and Marshal/Unmarshal must give encoding/json's result for the type-specific sentinel.",
 		StatesAre: "distinct failure kinds",
-		Assume:    append([]string{"linux/amd64, go1.23.5 linker layout; other linkers and architectures are out of scope", "binding hooks (build tag verif) are called on every return of CompileToGetCodeSet / CompileToGetDecoder"}, commonAssume...),
+		Assume:    append([]string{"c14.handles: every sequence of 2..3 (thorough 4) Decode steps on one Decoder over 5 documents x 10 destinations (three struct types of identical layout, refused destinations) equals a fresh Decoder on the unconsumed input, step by step", "linux/amd64, go1.23.5 linker layout; other linkers and architectures are out of scope", "binding hooks (build tag verif) are called on every return of CompileToGetCodeSet / CompileToGetDecoder"}, commonAssume...),
 		Prepare:   c14Prepare,
 	})
 }
